@@ -72,6 +72,22 @@ def run(ctx, idx):
         R.uses_all_inputs(ctx, "C07.d", d, r)
         R.symmetric_roles(ctx, "C07.d", d, r)
     ctx.extra["augmented_assignments_in_arithmetic_commands"] = n_aug
+    # cell-wise: the result has the shape of the inputs and is missing wherever an input is (the arithmetic definitions
+    # are per cell; a contraction, a positional operation or a mask-skipping reduction computes something else)
+    for name in ARITH:
+        d, r = res[name]
+        for n, s_, v in R.ret_sites(d, r):
+            if not isinstance(v, Arr):
+                continue
+            con = R.ret_key(d, n) + "::cell-wise"
+            pos = [f for f in r.findings if f[0] in ("equivariance", "shape")]
+            miss = R.input_tokens(d) & v.D - v.M
+            if v.shape != "same" or pos:
+                ctx.violate("C07.d", con, d.module.rel, pos[0][1] if pos else R.line_of(s_), "the result is not computed cell by cell for every shape: %s" % (pos[0][2] if pos else "abstract shape `%s`" % v.shape))
+            elif miss:
+                ctx.violate("C07.d", con, d.module.rel, R.line_of(s_), "a cell missing in %s only gets a value computed from the other inputs: the command no longer agrees with its cell-wise definition (e.g. Mean != Sum / n there)" % R.tok_text(miss))
+            else:
+                ctx.hold("C07.d", con, d.module.rel, R.line_of(s_), "shape of the inputs, missing wherever an input is")
     check_validate(ctx, idx, "C07.b")
     check_validate_callers(ctx, idx, "C07.b")
     for name in ("WeightedSum", "WeightedMean"):
